@@ -13,7 +13,7 @@ RULE = ('seeded scenarios x seeded histories over yy_create_buffer / yy_scan_str
         'NULs, the caller\'s array is scribbled over right after yy_scan_string/bytes, yy_flush_buffer drops exactly the buffered bytes. '
         'distinct = event-log hash, non-trivial = tokens attributed to >= 2 buffers')
 TIERS = {
-    'quick': {'scenarios': 48, 'plans': 100, 'wall_cap': 600},
+    'quick': {'scenarios': 80, 'plans': 200, 'wall_cap': 600},
     'thorough': {'scenarios': 5000, 'plans': 250, 'wall_cap': 3300},
 }
 COMPONENTS = sb.COMPONENTS
@@ -26,10 +26,10 @@ EXPECTED_PROBES = ['buffer-stack-depth>1', 'buffer-stack-grown-twice', 'flush-dr
 class P(sb.StreamProp):
     ID = ID
     CLASSES = {'stream', 'phantom', 'token', 'premature', 'curbuf', 'api', 'bol', 'lineno', 'fatal', 'hang', 'input', 'less',
-               'wrap-with-pending', 'read-after-eof'}
+               'wrap-with-pending', 'wrap-without-eof', 'read-after-eof'}
 
     def gen_scenario(self, rng):
-        return scenario.gen_scenario(rng, forbid=('vtrail',), want={'yymore': False, 'flavors': ['nr', 'nr', 'r', 'r', 'c99', 'cxx']})
+        return scenario.gen_scenario(rng, forbid=('vtrail',), want={'yymore': False, 'flavors': ['nr', 'nr', 'r', 'r', 'c99', 'c99', 'cxx', 'cxx']})
 
     def gen_plan(self, rng, sc):
         return workload.gen_buffer_plan(rng, sc)
